@@ -125,7 +125,7 @@ def run_variant(prop, v):
     d = scratch_verif()
     rc, out = run_checker(prop, "quick", d, v["overlay"])
     shutil.rmtree(d, ignore_errors=True)
-    keys = re.findall(r"^(?:VIOLATED|UNDECIDED|ANCHOR-LOST): \[([^\]]+)\]", out, re.M)
+    keys = re.findall(r"^(?:VIOLATED|UNDECIDED|ANCHOR-LOST): \[(.*)\] ?\S*$", out, re.M)
     if rc == 0:
         v["status"] = "SURVIVED"
     elif keys == ["load"] or (not keys and rc != 1):
